@@ -217,4 +217,5 @@ def write_registry_v(path_txt):
     if not os.path.exists(p) or open(p).read() != txt:
         with open(p, "w") as f:
             f.write(txt)
+    C.want_gen(p, txt)
     return structs, enums, reg, ifaces
